@@ -54,7 +54,7 @@ def run(chk):
         "obligations": pr["obligations"], "discharged": pr["discharged"], "axioms": pr["axioms"],
         "checker_cmd": "cd lean && lake build %s" % MODULE, "trusted_base": TRUSTED_BASE, "forbidden_constructs": pr["forbidden_constructs"],
         "evaluations": len(cases), "distinct_nontrivial": len(nontrivial),
-        "rule": "every file written for the C01 workloads (5 structs incl. nested groups 3 deep and same-named groups under different parents; structural enumeration, random, extremes; page sizes; 3 codecs) plus histories with empty writes and pending records, parsed by the independent Lean parser/validator PQ.parseFile (magic, footer length, thrift, schema tree vs struct columns, every offset/size/count/codec, page record limits and boundaries, exact level and value section lengths); non-trivial = distinct history whose file validates and whose parsed content equals the list-of-batches model",
+        "rule": "every file written for the C01 workloads (8 structs plus 2 writer-side ones, incl. nested groups 3 deep and same-named groups under different parents; structural enumeration, random, extremes; page sizes; 3 codecs) plus histories with empty writes and pending records, parsed by the independent Lean parser/validator PQ.parseFile (magic, footer length, thrift, schema tree vs struct columns, every offset/size/count/codec, page record limits and boundaries, exact level and value section lengths); non-trivial = distinct history whose file validates and whose parsed content equals the list-of-batches model",
         "samples": [cases[i].key()[:300] for i in (0, len(cases) // 2, len(cases) - 1)],
         "input_distribution": tags, "structural_enumeration": meta,
         "tie": "exact: model file bytes = generated writer's (all codecs; compressed payloads supplied by the external codec library)",
